@@ -441,7 +441,16 @@ func runJob(root, bin, id, tier string, seed int64, replay, runDir string, j *jo
 	}
 	ctx, cancel := context.WithTimeout(context.Background(), timeout)
 	defer cancel()
-	cmd := exec.CommandContext(ctx, bin, args...)
+	// an address-space limit turns a runaway allocation into a visible "out of memory" of that unit instead of an
+	// invisible kill by the kernel
+	memKB := 16000000
+	if v := os.Getenv("VERIF_MEM_KB"); v != "" {
+		if n, err := strconv.Atoi(v); err == nil {
+			memKB = n
+		}
+	}
+	shArgs := append([]string{"-c", fmt.Sprintf("ulimit -v %d 2>/dev/null; exec \"$0\" \"$@\"", memKB), bin}, args...)
+	cmd := exec.CommandContext(ctx, "/bin/sh", shArgs...)
 	cmd.Dir = filepath.Join(root, "checks", strings.ToLower(id))
 	cmd.Env = append(os.Environ(),
 		"VERIF_UNIT="+u.Test,
